@@ -19,8 +19,11 @@ TRUSTED = [
     "exercised on every probability written",
     "Print Assumptions lists Coq's primitive float / int63 operations (div, of_uint63, ...) for C18_prob: primitives of "
     "the kernel, not logical axioms",
-    "the comparison operators / bounds of calc_omen_keyspace and _rec_calc_keyspace are re-extracted from the source on "
-    "every run (harness/consts/omen_level.py, fail closed) and pinned by side-condition lemmas in Props/C18.v",
+    "the two comparisons of calc_omen_keyspace the model is parameterised by (IP guard, length skip) are read off the "
+    "TRANSLATION of calc_omen_keyspace on every run, the default bounds off its def line (harness/consts/omen_level.py, "
+    "fail closed), and pinned by side-condition lemmas in Props/C18.v; the formula written to pcfg_omen_prob.txt is "
+    "checked by ast up to the naming of intermediate values; the shape of the translated functions themselves is no "
+    "longer string-matched: the translation + equality proofs carry that tie",
     "harness/translate_omen_level.py: fail-closed ast translator of _rec_calc_keyspace and calc_omen_keyspace into "
     "gen/OmenKeyspace_gen.v (accepted subset and the representation of Python values in its header: ints as Z, the trainer "
     "object as the model's record plus the nested keyspace_cache dicts threaded explicitly, collections.Counter as an "
